@@ -36,9 +36,10 @@ RULES = {
     "R9": "exported state wiring and predictor == _reconstruct_Mu under renaming",
     "R10": "the row-index lists the blocks read through hold row numbers derived from the sampler's row count",
     "R11": "encode_obs hands out (y, cline, dd1, dd2) - the four observation lists, each under its own name and in this order; n_obs is len(self.y)",
+    "R13": "the exported sample dispatches on data.treatment_arity (1 -> single-drug formula reading slot 0, 2 -> pair formula): the attribute is the number of id columns in ScreenBase and every override",
     "R12": "constructor options are live: every attribute the constructor binds from a parameter is read by a method of the class (`intercept` and `individual_eff` of the legacy sampler are unread on the reviewed tree and exempt)",
 }
-MIN = {"R1": 3, "R2": 5, "R3": 7, "R4": 18, "R5": 5, "R6": 9, "R7": 2, "R8": 3, "R9": 3, "R10": 3, "R11": 2, "R12": 1}
+MIN = {"R1": 3, "R2": 5, "R3": 7, "R4": 18, "R5": 5, "R6": 9, "R7": 2, "R8": 3, "R9": 3, "R10": 3, "R11": 2, "R12": 1, "R13": 1}
 TRUSTED = ["own derivation of the full conditionals from the stated model (table BLOCKS below, DESIGN.md A.4)",
            "numpy/scipy: cholesky returns the lower factor; solve_triangular / cho_solve semantics",
            "row stacks distribute over right-multiplication (np.concatenate([a, b]) @ v == concatenate([a @ v, b @ v]))"]
@@ -1210,7 +1211,11 @@ def r_options(ctx):
     common.options_are_live(ctx, "R12", ["batchie.models.sparse_combo.LegacySparseDrugComboImpl"], exempt=("intercept", "individual_eff"))
 
 
-RULE_FUNCS = [r1, r234, r5, r6, r7, r8, r9, r10, r11, r_options]
+def r_derived(ctx):
+    common.derived_attributes(ctx, "R13", ['treatment_arity'])
+
+
+RULE_FUNCS = [r1, r234, r5, r6, r7, r8, r9, r10, r11, r_options, r_derived]
 
 
 def run(ctx):
@@ -1231,6 +1236,7 @@ def _rep(a, b, nth=0):
 
 SC = "batchie.models.sparse_combo"
 WITNESSES = [
+    ("arity ignores all-control columns", "batchie.data", _rep("        return self.treatment_ids.shape[1]\n", "        return max(int(np.any(self.treatment_ids != CONTROL_SENTINEL_VALUE, axis=0).sum()), 1)\n"), ["R13"]),
     ("W residual sign", SC, _rep("resid = y[cidx] - self.Mu[cidx] + old_contrib", "resid = y[cidx] - self.Mu[cidx] - old_contrib"), ["R3"]),
     ("prec dropped from mu_part (W)", SC, _rep("            mu_part = (Xt @ resid) * prec\n", "            mu_part = Xt @ resid\n"), ["R4"]),
     ("Mu update deleted in V1", SC, _rep("                self.Mu[idx] += X @ self.V1[m] - old_contrib\n", "                pass\n"), ["R2"]),
